@@ -4,45 +4,81 @@
 //!
 //! usage: vp <PROPERTY-ID> [quick|thorough] [--replay <file>] [--scenario <n>] [--scale <f>]
 //! exit codes: 0 held, 1 violation (VIOLATION line printed), 2 harness error / hang.
+//!
+//! The process started by the user is a *supervisor*: it runs the campaign in a
+//! child process (`--child`), so that inputs which kill the process outright
+//! (allocation failure abort, stack overflow) are recovered from the in-flight
+//! record, reproduced in isolation, shrunk and reported like any other
+//! violation.
 
 mod alloc;
 mod engine;
 mod findings;
+mod inflight;
 mod monitor;
 mod shrink;
+mod supervisor;
 
 use std::{env, path::PathBuf, process::exit};
 
-fn main() {
+pub struct Args {
+  pub id: String,
+  pub tier: String,
+  pub replay: Option<PathBuf>,
+  pub only_scenario: Option<u32>,
+  pub scale: f64,
+  pub list: bool,
+  pub child: bool,
+  pub raw: Option<(u32, PathBuf)>,
+  pub seed: u64,
+  pub root: PathBuf,
+}
+
+fn parse_args() -> Args {
   let args: Vec<String> = env::args().collect();
   if args.len() < 2 {
     eprintln!("usage: vp <PROPERTY-ID> [quick|thorough] [--replay <file>] [--scenario <n>] [--scale <f>]");
     exit(2);
   }
-  let mut id = String::new();
-  let mut tier = env::var("VERIF_TIER").unwrap_or_else(|_| "quick".to_string());
-  let mut replay: Option<PathBuf> = None;
-  let mut only_scenario: Option<u32> = None;
-  let mut scale: f64 = 1.0;
-  let mut list = false;
+  let mut a = Args {
+    id: String::new(),
+    tier: env::var("VERIF_TIER").unwrap_or_else(|_| "quick".to_string()),
+    replay: None,
+    only_scenario: None,
+    scale: 1.0,
+    list: false,
+    child: false,
+    raw: None,
+    seed: env::var("VERIF_SEED")
+      .ok()
+      .and_then(|s| s.trim().parse::<i128>().ok())
+      .map(|v| v as u64)
+      .unwrap_or(20260925),
+    root: PathBuf::from(env::var("VERIF_ROOT").unwrap_or_else(|_| "/verif".to_string())),
+  };
   let mut i = 1;
   while i < args.len() {
     match args[i].as_str() {
-      "quick" | "thorough" => tier = args[i].clone(),
+      "quick" | "thorough" => a.tier = args[i].clone(),
       "--replay" => {
         i += 1;
-        replay = Some(PathBuf::from(&args[i]));
+        a.replay = Some(PathBuf::from(&args[i]));
       }
       "--scenario" => {
         i += 1;
-        only_scenario = Some(args[i].parse().expect("scenario number"));
+        a.only_scenario = Some(args[i].parse().expect("scenario number"));
       }
       "--scale" => {
         i += 1;
-        scale = args[i].parse().expect("scale factor");
+        a.scale = args[i].parse().expect("scale factor");
       }
-      "--list" => list = true,
-      s if id.is_empty() => id = s.to_string(),
+      "--raw" => {
+        a.raw = Some((args[i + 1].parse().expect("scenario"), PathBuf::from(&args[i + 2])));
+        i += 2;
+      }
+      "--list" => a.list = true,
+      "--child" => a.child = true,
+      s if a.id.is_empty() => a.id = s.to_string(),
       s => {
         eprintln!("unexpected argument {s}");
         exit(2);
@@ -50,21 +86,16 @@ fn main() {
     }
     i += 1;
   }
-  if tier != "quick" && tier != "thorough" {
-    eprintln!("unknown tier {tier}");
+  if a.tier != "quick" && a.tier != "thorough" {
+    eprintln!("unknown tier {}", a.tier);
     exit(2);
   }
-  let seed: u64 = env::var("VERIF_SEED")
-    .ok()
-    .and_then(|s| s.trim().parse::<i128>().ok())
-    .map(|v| v as u64)
-    .unwrap_or(20260925);
-  let root = PathBuf::from(env::var("VERIF_ROOT").unwrap_or_else(|_| "/verif".to_string()));
+  a
+}
 
-  alloc::install_probe();
-  monitor::install_panic_hook();
-
-  if list {
+fn main() {
+  let a = parse_args();
+  if a.list {
     for p in rustdds::verif::registry() {
       println!("{}", p.id);
       for s in p.scenarios {
@@ -73,22 +104,32 @@ fn main() {
     }
     exit(0);
   }
-
   let registry = rustdds::verif::registry();
-  let Some(prop) = registry.into_iter().find(|p| p.id == id) else {
-    eprintln!("property {id} is not built into this harness binary (wrong feature set?)");
+  let Some(prop) = registry.into_iter().find(|p| p.id == a.id) else {
+    eprintln!("property {} is not built into this harness binary (wrong feature set?)", a.id);
     exit(2);
   };
 
+  if !a.child && a.raw.is_none() {
+    exit(supervisor::supervise(&prop, &a));
+  }
+
+  alloc::install_probe();
+  monitor::install_panic_hook();
+  inflight::init(env::var("VERIF_INFLIGHT").ok().as_deref());
+
   let cfg = engine::RunConfig {
-    root,
-    tier,
-    seed,
-    only_scenario,
-    scale,
+    root: a.root.clone(),
+    tier: a.tier.clone(),
+    seed: a.seed,
+    only_scenario: a.only_scenario,
+    scale: a.scale,
   };
-  let code = match replay {
-    Some(path) => engine::replay(&prop, &cfg, &path),
+  if let Some((scenario, path)) = &a.raw {
+    exit(engine::raw(&prop, *scenario, path));
+  }
+  let code = match &a.replay {
+    Some(path) => engine::replay(&prop, &cfg, path),
     None => engine::run_property(&prop, &cfg),
   };
   exit(code);
